@@ -297,3 +297,46 @@ func extremeTies(n int) [][]int {
 	}
 	return out
 }
+
+// mwNearEqual builds two samples from "near-equal distinct values": around a base value v at one of
+// several magnitudes the pool holds v, nextafter(v, +inf) applied k times for k = 1..8, the same
+// downwards, mixed with exact repetitions of some of them (true ties); the values are dealt to the
+// two samples at random, so near-equal neighbours occur inside one sample and across the samples.
+// They are DISTINCT real numbers: the pair count, the tie vector and hasTies must treat them so.
+func mwNearEqual(rng *rand.Rand, n1, n2 int) ([]float64, []float64) {
+	bases := []float64{1e-300, 0.3, 0.1 + 0.2, 1, 1e6, 1e300, -0.3, -1e6, 5e-324, 0}
+	n := n1 + n2
+	var pool []float64
+	for len(pool) < n {
+		v := bases[rng.Intn(len(bases))]
+		if rng.Intn(4) == 0 {
+			v *= float64(1 + rng.Intn(7))
+		}
+		cluster := []float64{v}
+		up, down := v, v
+		for k := 1 + rng.Intn(3); k <= 8 && len(cluster) < 6; k += 1 + rng.Intn(3) {
+			for j := 0; j < k; j++ {
+				up = math.Nextafter(up, math.Inf(1))
+				down = math.Nextafter(down, math.Inf(-1))
+			}
+			if rng.Intn(2) == 0 {
+				cluster = append(cluster, up)
+			} else {
+				cluster = append(cluster, down)
+			}
+			up, down = v, v
+		}
+		for _, c := range cluster {
+			if math.IsInf(c, 0) {
+				continue
+			}
+			pool = append(pool, c)
+			if rng.Intn(4) == 0 {
+				pool = append(pool, c) // an exact tie next to the near-ties
+			}
+		}
+	}
+	pool = pool[:n]
+	rng.Shuffle(n, func(i, j int) { pool[i], pool[j] = pool[j], pool[i] })
+	return append([]float64{}, pool[:n1]...), append([]float64{}, pool[n1:]...)
+}
